@@ -1268,6 +1268,84 @@ theorem object_history_eq_fresh (conv : Conv C) :
 `RenderLaTeX` keeps rendering the cached template (jinja2 compares modification times only) -/
 example : (getTemplate { cache := some (1, 5) } ⟨2, 5⟩).1 = 1 := by decide
 
+/-! ## the pool of `LaTeXToPDF`: a value is yielded for a launched conversion iff its return code is 0 -/
+
+theorem popReturned_perm (pool : List (PoolEntry C)) :
+    ((popReturned pool).2 ++ ((popReturned pool).1.filter (·.ok)).map (·.val)).Perm ((pool.filter (·.ok)).map (·.val)) := by
+  induction pool with
+  | nil => exact List.Perm.refl _
+  | cons e rest ih =>
+    simp only [popReturned]
+    by_cases hf : e.fin = 0
+    · simp only [hf, if_true]
+      by_cases ho : e.ok = true
+      · simp only [ho, if_true, List.filter_cons_of_pos, List.map_cons, List.cons_append]
+        exact List.Perm.cons _ ih
+      · have ho' : e.ok = false := by cases h : e.ok <;> simp_all
+        simp only [ho', List.filter_cons, Bool.false_eq_true, if_false]
+        exact ih
+    · simp only [hf, if_false]
+      by_cases ho : e.ok = true
+      · simp only [List.filter_cons, ho, if_true, List.map_cons]
+        exact (List.perm_middle).trans (List.Perm.cons _ ih)
+      · have ho' : e.ok = false := by cases h : e.ok <;> simp_all
+        simp only [List.filter_cons, ho', Bool.false_eq_true, if_false]
+        exact ih
+
+/-- **`latexRun_yields_iff_ok`.**  For every flow of values, every pool left from before, every schedule of return
+codes and termination times, every `verbose` and `overwrite`: `LaTeXToPDF.run` with its pool ends in the same
+world as dealing with every value completely before the next one, and yields — up to the order — exactly the
+values of the pool whose command succeeded, the values it skipped as unchanged, and the launched values whose
+command returned 0.  In particular neither the verbosity nor the moment a command terminates decides whether a
+value is yielded, and a failed conversion is never named by a yielded value. -/
+theorem latexRun_yields_iff_ok (conv : Conv C) (overwrite : Bool) (verbose : Nat) :
+    ∀ (flow : List (Val C × Sched)) (w : World C) (pool : List (PoolEntry C)),
+      match latexRun conv overwrite verbose w pool flow, latexRunSeq conv overwrite w flow with
+      | .ok (w1, vs), .ok (w2, vs') => w1 = w2 ∧ vs.Perm ((pool.filter (·.ok)).map (·.val) ++ vs')
+      | .error e, .error e' => e = e'
+      | _, _ => False := by
+  intro flow
+  induction flow with
+  | nil => intro w pool; simp [latexRun, latexRunSeq]
+  | cons x rest ih =>
+    intro w pool
+    obtain ⟨v, sc⟩ := x
+    simp only [latexRun, latexRunSeq]
+    cases hh : latexHandle conv overwrite w v sc with
+    | error e => simp
+    | ok r =>
+      obtain ⟨w', launched, now⟩ := r
+      simp only
+      have := ih w' ((popReturned pool).1 ++ launched)
+      cases h1 : latexRun conv overwrite verbose w' ((popReturned pool).1 ++ launched) rest with
+      | error e =>
+        cases h2 : latexRunSeq conv overwrite w' rest with
+        | error e' => rw [h1, h2] at this; simpa using this
+        | ok r2 => rw [h1, h2] at this; exact this.elim
+      | ok r1 =>
+        obtain ⟨w1, vs⟩ := r1
+        cases h2 : latexRunSeq conv overwrite w' rest with
+        | error e' => rw [h1, h2] at this; exact this.elim
+        | ok r2 =>
+          obtain ⟨w2, vs'⟩ := r2
+          rw [h1, h2] at this
+          obtain ⟨hw, hp⟩ := this
+          refine ⟨hw, ?_⟩
+          simp only [List.filter_append, List.map_append] at hp
+          -- vs ~ stay ++ L ++ vs';  goal: pop ++ now ++ vs ~ poolOk ++ (now ++ L ++ vs')
+          have hpop := popReturned_perm pool
+          generalize (popReturned pool).2 = P at *
+          generalize ((popReturned pool).1.filter (·.ok)).map (·.val) = S at *
+          generalize ((pool.filter (·.ok)).map (·.val)) = Q at *
+          generalize (launched.filter (·.ok)).map (·.val) = L at *
+          have e1 : (P ++ now ++ vs).Perm (P ++ now ++ (S ++ L ++ vs')) := List.Perm.append_left _ hp
+          have e2 : (P ++ now ++ (S ++ L ++ vs')).Perm ((P ++ S) ++ (now ++ L ++ vs')) := by
+            simp only [List.append_assoc]
+            apply List.Perm.append_left
+            rw [← List.append_assoc now S, ← List.append_assoc S now]
+            exact List.Perm.append_right _ List.perm_append_comm
+          exact e1.trans (e2.trans (List.Perm.append_right _ hpop))
+
 /-! ## the executable specification side (`Model/C19Spec.lean`) -/
 
 /-- the Boolean `SourceClosed` that the driver evaluates on every run is the hypothesis of the theorems -/
